@@ -383,9 +383,100 @@ def r125(ctx, fx):
         ctx.fail_closed(rid, "no chunk-dropping decision (`ignore = true`) found in join_chunks")
 
 
+def r126(ctx, fx):
+    rid = ctx.rule("R12.6", "statements that share a source line are kept apart: format_tokens pushes a line break in front of a statement whose leading trivia "
+                   "contains no line break (unless it follows a label) — blanks between statements are not kept, so without it `lda foo nop` is written `lda foonop`")
+    ft = [f for f in fx.all_fns("mos_core") if f.path.endswith("CodeFormatter::format_tokens") or f.path.endswith("::format_tokens")]
+    ft = [f for f in ft if f.d.get("hir")]
+    if len(ft) != 1:
+        ctx.fail_closed(rid, "format_tokens not found uniquely (%d)" % len(ft))
+        return
+    f = ft[0]
+    key = "format_tokens|same-line-statements"
+    ctx.inst(rid, key)
+    # a local computed from `token.trivia()` and Trivia::NewLine that takes part in the condition of the `push("\n")`
+    newline_locals = set()
+    for n in lib.hwalk(f.hir["body"]):
+        if n.get("k") == "let" and n["pat"].get("k") == "bind" and "init" in n:
+            init = n["init"]
+            if any(True for _ in lib.hir_calls(init, "Token::trivia")) and "NewLine" in repr([lib.pat_key(a["pat"]) for m in lib.hwalk(init) if m.get("k") == "match" for a in m["arms"]] +
+                                                                                          [lib.hpath(p_) for p_ in lib.hwalk(init) if p_.get("k") == "path"]):
+                newline_locals.add(n["pat"]["name"])
+    ok = False
+    for n in lib.hwalk(f.hir["body"]):
+        if n.get("k") == "if" and any(x.get("k") == "mcall" and x.get("name") == "push" and lib.hlit(x["args"][0]) == "\n" for x in lib.hwalk(n["then"])):
+            used = {lib.hpath(x) for x in lib.hwalk(n["cond"]) if x.get("k") == "path" and (x.get("res") or {}).get("dk") == "Local"}
+            if used & newline_locals:
+                ok = True
+    if not ok:
+        ctx.finding(rid, key, "format_tokens separates two statements only when their kinds ask for a line break: two statements on one source line are written without "
+                    "anything in between (`lda foo nop` → `lda foonop`, which no longer assembles)", f.where)
+
+
+def r127(ctx, fx):
+    rid = ctx.rule("R12.7", "a binary operator is written with a blank on either side, unconditionally: between `fmt(lhs)`, `fmt(op)` and `fmt(rhs)` the formatter pushes "
+                   "a non-empty literal. Without it the operator fuses with what follows: `a / *` becomes `a/*` (an unterminated comment), `8 / /* c */ 2` becomes "
+                   "`8//* c */ 2` (a line comment that swallows the operand)")
+    fe = [f for f in fx.all_fns("mos_core") if f.path.endswith("::format_expression") and f.d.get("hir") and "formatting" in f.path]
+    if len(fe) != 1:
+        ctx.fail_closed(rid, "formatting::…::format_expression not found uniquely (%d)" % len(fe))
+        return
+    f = fe[0]
+    arm = None
+    for n in lib.hwalk(f.hir["body"]):
+        if n.get("k") == "match":
+            for a in n["arms"]:
+                pk = lib.pat_key(a["pat"])
+                if isinstance(pk, str) and pk.split("(")[0].endswith("Expression::BinaryExpression"):
+                    arm = a
+            if arm:
+                break
+    key = "format_expression|binary|separators"
+    ctx.inst(rid, key)
+    if arm is None:
+        ctx.fail_closed(rid, "BinaryExpression arm of format_expression not found")
+        return
+    # the calls of the arm in source order: fmt(lhs) push fmt(op) push fmt(rhs)
+    seq = []
+    for x in lib.hwalk(arm["body"]):
+        if x.get("k") == "mcall" and x.get("name") in ("fmt", "push", "spc_if_next", "spc"):
+            what = None
+            if x["name"] == "push":
+                lit = lib.hlit(x["args"][0]) if x.get("args") else None
+                what = ("push", lit)
+            elif x["name"] == "fmt":
+                d = repr(lib.hdesc(x["args"][0])) if x.get("args") else ""
+                what = ("fmt", "lhs" if "'lhs'" in d else "rhs" if "'rhs'" in d else "op" if "'op'" in d else "?")
+            else:
+                what = (x["name"], None)
+            seq.append(((x.get("ln") or 0, x.get("col") or 0), what))
+    order = [w for _, w in sorted(seq, key=lambda t: t[0])]
+    # method chains are nested receiver-first, so line/col order is the call order; tolerate equal positions by trying the reverse
+    def ok(o):
+        names = [w for w in o if w[0] in ("fmt", "push")]
+        if [w for w in names if w[0] == "fmt"] != [("fmt", "lhs"), ("fmt", "op"), ("fmt", "rhs")]:
+            return None
+        i_l, i_o, i_r = names.index(("fmt", "lhs")), names.index(("fmt", "op")), names.index(("fmt", "rhs"))
+        between1 = names[i_l + 1:i_o]
+        between2 = names[i_o + 1:i_r]
+        good = lambda b: any(w[0] == "push" and isinstance(w[1], str) and w[1] != "" and w[1].strip() == "" for w in b) and \
+            all(w[0] != "push" or isinstance(w[1], str) for w in b)
+        return good(between1) and good(between2)
+    res = ok(order)
+    if res is None:
+        res = ok(list(reversed(order)))
+    if res is None:
+        ctx.fail_closed(rid, "the BinaryExpression arm does not format lhs, operator and rhs in that order: %s" % order)
+    elif not res:
+        ctx.finding(rid, key, "a binary operator is not always written with a blank on both sides (a separator that is not a non-empty literal): `/` then fuses with a "
+                    "following `*` or `/*…*/` into a comment opener and the formatted program no longer means the same", "%s:%s" % (f.file, arm.get("ln")))
+
+
 def run(ctx):
     fx = ctx.facts
     r125(ctx, fx)
+    r126(ctx, fx)
+    r127(ctx, fx)
     r121_122(ctx, fx)
     r123(ctx, fx)
     r124(ctx, fx)
